@@ -69,6 +69,10 @@ def gen_structs(rng, n):
         structs.append([("prim", rng.choice(small)), sl])
         structs.append([sl, ("prim", rng.choice(small))])
         structs.append([("struct", len(structs) - rng.choice([1, 2]))])
+        # the padded two-scalar struct S0 wrapped alone (its two scalars pass through the wrapper: the caller's forced padding has to be
+        # forwarded), and that wrapper next to one small scalar (seed C08-j)
+        structs.append([("struct", 0)])
+        structs.append([("prim", rng.choice(small)), ("struct", len(structs) - 1)] if rng.random() < 0.5 else [("struct", len(structs) - 1), ("prim", rng.choice(small))])
     for k in range(len(structs), n):
         nf = rng.randint(1, 8) if k % 3 else rng.randint(1, 4)
         fields = [gen_field(rng, structs, 0) for _ in range(nf)]
